@@ -18,7 +18,7 @@
  *      result: ( ((hret xpath sizeset size type mode mtime xhardlink xsymlink nsparse (choice result)) ...)
  *                final_hret xerror xformatname formatcode )
  *
- *  (3 xpath xformat (xfilter ...) xoptions ((xname filetype size sizeset seed ((off len) ...) xlink) ...))
+ *  (3 xpath xformat (xfilter ...) xoptions ((xname filetype size sizeset seed ((off len) ...) xlink [xcontents]) ...))
  *      writes an archive with the REAL writers (corpus for op 1).  Contents: byte i of a file is
  *      1 + (31 i + seed) mod 255 inside the listed sparse ranges (everywhere when there is no
  *      range list) and 0 in the holes; sizeset = 0 leaves the size unset (zip: length-at-end).
@@ -414,6 +414,8 @@ op_write(val *c)
 		long long ftype = v_ll(v_at(e, 1)), size = v_ll(v_at(e, 2)), seed = v_ll(v_at(e, 4));
 		long long pos;
 		unsigned char chunk[1000];
+		val *ct = v_at(e, 7);	/* optional explicit contents (must have `size' bytes) */
+		int has_ct = v_len(e) > 7 && ct->kind == 1 && (long long)ct->n == size;
 
 		archive_entry_set_pathname(ae, name);
 		archive_entry_set_filetype(ae, (unsigned)ftype);
@@ -440,7 +442,8 @@ op_write(val *c)
 						long long o = v_ll(v_at(v_at(sp, j), 0)), l = v_ll(v_at(v_at(sp, j), 1));
 						if (at >= o && at < o + l) in = 1;
 					}
-					chunk[i] = in ? (unsigned char)(1 + (31 * at + seed) % 255) : 0;
+					chunk[i] = has_ct ? ct->b[at] :
+					    in ? (unsigned char)(1 + (31 * at + seed) % 255) : 0;
 				}
 				w = archive_write_data(a, chunk, n);
 				if (w < 0) { TRACK((int)w); break; }
